@@ -34,3 +34,20 @@ def _c27_limit_levin_large_step(inp):
         return False
     m = set(str(inp.get("method") or "").split("+"))
     return bool(m & {"l", "levin", "sidi"}) and Fraction(inp["lim"]["absdir"]) >= 5
+
+
+@predicate("c27_sumap_pole_higher_than_far")
+def _c27_sumap_pole_height(inp):
+    """sumap (Abel-Plana) of a rational summand whose nearest pole -c lies at a height |Im c| of at least 1.5 times its distance
+    Re c + a from the integration line Re z = a: the second Abel-Plana integrand has a narrow bump at t ~ |Im c| that the
+    quadrature resolves with a loss of 1..40 bits (growing with the ratio and the precision); summands with their poles nearer the
+    real axis are summed to full accuracy"""
+    if inp.get("kind") != "cx_nsum" or inp.get("shape") != "sumap":
+        return False
+    ser = (inp.get("sers") or [{}])[0]
+    if ser.get("cser") != "ctele":
+        return False
+    c = ser.get("c") or ["0", "0"]
+    re, im = Fraction(c[0]), Fraction(c[1])
+    dist = re + int(inp.get("a", 1))
+    return dist > 0 and abs(im) * 2 >= 3 * dist
